@@ -318,7 +318,7 @@ func ApproveQuitSideChain(native *native.NativeService) ([]byte, error) {
 	}
 
 	chainidByte := utils.GetUint64Bytes(params.Chainid)
-	native.GetCacheDB().Delete(utils.ConcatKey(utils.SideChainManagerContractAddress, []byte(QUIT_SIDE_CHAIN), chainidByte))
+	native.GetCacheDB().Delete(utils.ConcatKey(utils.SideChainManagerContractAddress, []byte(QUIT_SIDE_CHAIN_REQUEST), chainidByte))
 	native.GetCacheDB().Delete(utils.ConcatKey(utils.SideChainManagerContractAddress, []byte(SIDE_CHAIN), chainidByte))
 	native.AddNotify(
 		&event.NotifyEventInfo{
